@@ -161,6 +161,9 @@ func (n *node[T]) find(pattern string) *node[T] {
 // 清除路由项
 func (n *node[T]) clean(prefix string) {
 	if len(prefix) == 0 {
+		for _, child := range n.children {
+			child.uncount()
+		}
 		n.children = n.children[:0]
 		n.buildIndexes()
 		return
@@ -175,6 +178,7 @@ func (n *node[T]) clean(prefix string) {
 		}
 
 		if strings.HasPrefix(child.segment.Value, prefix) {
+			child.uncount()
 			dels = append(dels, child.segment.Value)
 		}
 	}
